@@ -26,6 +26,7 @@ Campaign   : exhaustive small scope (thorough) / seeded 3 % sample (quick):
 import hashlib
 import itertools
 import os
+import re
 import subprocess
 import sys
 from collections import Counter
@@ -225,20 +226,32 @@ def work(job):
                 # cut positions inside the consumed part and inside a run
                 rc = [0 < p <= consumed and p < L and data[p - 1] == data[p]
                       for p in range(L + 1)]
-                okc = (c, m, key, full, consumed < L, rc)
-            _, _, key, full, longer, rc = okc
+                # how the block was closed
+                e = consumed
+                while e > 0 and data[e - 1] == data[consumed - 1] \
+                        and consumed - e < 259:
+                    e -= 1
+                special = None
+                if full and nb == cap - 1:
+                    special = 'closed by refusing a fourth equal byte'
+                elif full and nb == cap and consumed - e >= 4:
+                    special = 'closed by a count byte filling the block'
+                okc = (c, m, key, special, consumed < L, rc)
+            _, _, key, special, longer, rc = okc
             stats[key] += 1
             if longer:
                 stats['input longer than block'] += 1
+            if special:
+                stats[special] += 1
             inrun = False
             for p in cutl[t]:
                 if rc[p]:
                     inrun = True
             if inrun:
                 stats['buffer boundary inside a run'] += 1
-            if full or inrun:
+            if special or inrun:
                 nontrivial += 1
-                if not samples and gi % 7 == 3 and inrun and full:
+                if not samples and gi % 7 == 3 and inrun and special:
                     samples.append({'request': creq[c0 + t], 'c': c,
                                     'spec': spec})
     return {'stats': stats, 'bad': bad[:20], 'nbad': len(bad),
@@ -340,8 +353,25 @@ def main():
         'rleLen_take_mono', 'pack_maximal', 'pack_largest', 'collect_split',
         'collect_preserves_inv', 'init_wellformed', 'collectMany_flatten',
         'collect_pack', 'collect_pack_single')])
+    # the final flush of encode(): cut the statements out of the source so the
+    # harness executes the text of the tree being checked
+    flags = []
+    try:
+        with open(os.path.join(REPO, 'src', 'encode.c')) as f:
+            enc_src = f.read()
+        m = re.search(r'/\* Finalize initial RLE\. \*/\n(.*?)\n[ \t]*'
+                      r'assert\(s->nblock > 0\);', enc_src, re.S)
+        if m is None or 'divbwt' in m.group(1) or len(m.group(1)) > 600:
+            raise ValueError('marker "Finalize initial RLE." not found')
+        with open(os.path.join(ck.tmp, 'finalize_rle.inc'), 'w') as f:
+            f.write(m.group(1) + '\n')
+        flags = ['-I' + ck.tmp, '-DHAVE_FINALIZE_INC']
+    except (OSError, ValueError) as e:
+        ck.broken.append('tie: cannot cut the final RLE flush out of '
+                         'encode(): %s' % e)
     h = ck.cc('h_collect', ['harness/h_collect.c',
-                            os.path.join(REPO, 'src', 'crctab.c')])
+                            os.path.join(REPO, 'src', 'crctab.c')],
+              flags=flags)
     drv = ck.driver()
     if h is None or not os.path.exists(drv):
         if h is not None:
@@ -444,10 +474,12 @@ def main():
         'distinct_nontrivial': nontrivial,
         'rule': 'a case is (cap, input, list of buffer sizes); the enumerated '
                 'cases are pairwise distinct by construction, random ones are '
-                'de-duplicated per input; non-trivial = the block became full '
-                '(return value 1) or a buffer boundary falls inside a run of '
-                'equal bytes within the consumed part (resume path '
-                'finish_run exercised)',
+                'de-duplicated per input; non-trivial = a buffer boundary falls '
+                'inside a run of equal bytes within the consumed part (the '
+                'resume path finish_run continues a run), or the block was '
+                'closed by one of the look-ahead rules (a fourth equal byte '
+                'refused with one byte of room left; a count byte filling '
+                'the block)',
         'samples': samples,
         'exhaustive': not ck.quick,
         'exhaustive_scope': 'all strings over {00,01} and all strings over '
